@@ -8,16 +8,23 @@ From AV Require Import Base.Util Model.Consumer Model.ConsumerLog Proofs.Consume
 
 Notation ww := (wp pw_out).
 
-(* d: "drained and dead" (stopping/stopped/start Deferred fired, and no processor result awaited): such a state stays
-   so through every method.  w: the window.  Invariant 13' of the model: while alive, a pending processor result implies
-   a block in progress. *)
-Definition PInv (d : bool) (w : option (Z * Z)) (s : state) : Prop :=
-  0 <= c_acn (s_cf s)
-  /\ (dead s = false -> is_some (s_proc s) = true -> is_some (s_mblock s) = true)
-  /\ (d = true -> dead s = true /\ s_proc s = None)
-  /\ (is_some w = true -> d = true).
-Definition PQ (d : bool) (w : option (Z * Z)) {A} : res A -> gpw -> state -> Prop :=
+(* a: the state is known to be dead (stopping / stopped / start Deferred fired); b: moreover no processor result is
+   awaited ("drained").  Both persist through every method.  w: the window.  Invariant 13 of the model: a pending processor result implies a
+   block in progress. *)
+Definition inv13b (s : state) : bool := implb (is_some (s_proc s)) (is_some (s_mblock s)).
+Definition PInv (d : bool * bool) (w : option (Z * Z)) (s : state) : Prop :=
+  (0 <=? c_acn (s_cf s)) && inv13b s && implb (fst d) (dead s) && implb (snd d) (negb (is_some (s_proc s)))
+  && implb (snd d) (fst d) = true.
+Definition PInvF (d : bool * bool) (s : state) : Prop :=            (* PInv without invariant 13 and the drained flag *)
+  (0 <=? c_acn (s_cf s)) && implb (fst d) (dead s) = true.
+Definition PQ (d : bool * bool) (w : option (Z * Z)) {A} : res A -> gpw -> state -> Prop :=
   fun _ g s => g = pw_abs w s /\ PInv d w s.
+
+(* the frame most methods have: processor, block, plan and stopping flag untouched *)
+Definition Fp (s s' : state) : Prop :=
+  s_proc s' = s_proc s /\ s_mblock s' = s_mblock s /\ s_plan s' = s_plan s /\ s_stopping s' = s_stopping s.
+Definition PF (d : bool * bool) (w : option (Z * Z)) (s : state) {A} : res A -> gpw -> state -> Prop :=
+  fun _ g' s' => (g' = pw_abs w s' /\ PInv d w s') /\ Fp s s' /\ s_lp s' = s_lp s.
 
 Lemma oz_eqb_refl x : oz_eqb x x = true.
 Proof. destruct x; cbn; [apply Z.eqb_refl | reflexivity]. Qed.
@@ -56,36 +63,35 @@ Ltac case1 :=
   | H : context [s_stopping ?s] |- _ => destruct (s_stopping s) eqn:?
   | |- context [s_stopping ?s] => destruct (s_stopping s) eqn:?
   end.
-Ltac unf :=
-  repeat match goal with
-  | H : PInv _ _ _ |- _ => let a := fresh "I" in let b := fresh "I" in let c := fresh "I" in let e := fresh "I" in
-                           destruct H as (a & b & c & e)
-  | H : dead _ = _ |- _ => unfold dead, startd_unfired in H
-  end;
-  unfold PQ, PInv, pw_abs, dead, startd_unfired.
+Ltac unf := unfold PQ, PF, Fp, PInv, PInvF, inv13b, pw_abs, dead, startd_unfired in *.
 Ltac pfin :=
   psimpl; bcomp; bool_hyps; rw_eqs; bcomp;
-  first [ reflexivity | assumption | congruence | discriminate | lia
-        | match goal with H : ?a = true -> _ |- _ => apply H; first [ reflexivity | assumption | congruence ] end ].
+  first [ reflexivity | assumption | congruence | discriminate ].
 Ltac psearch n :=
   first [ solve [pfin]
         | lazymatch n with O => fail | S ?m => case1; psearch m end ].
-Ltac spec_hyps :=
+Ltac dw :=
   repeat match goal with
-  | H : true = true -> _ |- _ => specialize (H eq_refl)
-  | H : ?d = true -> _, E : ?d = true |- _ => specialize (H E)
-  | H : _ /\ _ |- _ => destruct H
+  | d : (bool * bool)%type |- _ => destruct d as [[] []]; cbn [fst snd] in *
+  | d : bool |- _ => lazymatch goal with H : context [implb d _] |- _ => destruct d end
+  | w : option (Z * Z) |- _ => lazymatch goal with H : context [is_some w] |- _ => destruct w as [[? ?]|] end
   end.
-Ltac psolve :=
-  unfold PQ; repeat split; unf; intros; spec_hyps; unf; psimpl; rw_hyps; rw_eqs; cbn beta iota in *;
+Ltac pquick :=
+  first [ reflexivity | assumption | congruence
+        | solve [ unfold PInv, inv13b, dead, startd_unfired in *; psimpl; first [ assumption | congruence ] ]
+        | solve [ unfold pw_abs; psimpl; f_equal; first [ reflexivity | congruence ] ]
+        | solve [ unfold pw_abs; psimpl; rw_hyps; reflexivity ] ].
+Ltac pheavy :=
+  unf; psimpl; dw; rw_hyps; rw_eqs; cbn beta iota in *; bcomp;
   try reflexivity; try assumption; try (f_equal; try reflexivity);
-  psearch 4%nat.
+  psearch 5%nat.
+Ltac psolve := unfold PQ, PF, Fp in *; repeat split; first [ solve [pquick] | pheavy ].
 
 (* a state that is dead by hypothesis but alive by the branch taken: prune *)
 Ltac prune :=
   match goal with
-  | I : ?d = true -> dead ?s = true /\ _ |- _ =>
-    solve [ exfalso; unf; spec_hyps; unf; rw_hyps; cbn beta iota in *; bcomp; bool_hyps; try congruence; try discriminate ]
+  | K : PInv (true, _) _ ?s, D : s_startd ?s = Some false, D' : s_stopping ?s = false |- _ =>
+    solve [ exfalso; unf; rewrite D, D' in K; cbn in K; rewrite ?andb_false_r in K; cbn in K; discriminate ]
   end.
 
 Ltac p_emit :=
@@ -106,11 +112,25 @@ Ltac destr_post H :=
   | ?g = pw_abs _ _ => subst g
   | _ => idtac
   end.
+Ltac cur_w :=
+  match goal with
+  | K : PInv _ ?w0 _ |- _ => w0
+  | K : PInvF _ _ |- _ => constr:(@None (Z * Z))
+  end.
+Ltac after_call :=
+  let r := fresh "r" in let H := fresh "P" in
+  intros r ? ? H; unfold PQ, PF, Fp in H; destr_post H; destruct r; cbn beta iota.
 Ltac p_docall lem :=
-  eapply p_eq; [ solve [psolve] |
-    eapply wp_call; [ eapply lem; try solve [psolve]
-                    | let r := fresh "r" in let H := fresh "P" in
-                      intros r ? ? H; unfold PQ in H; destr_post H; destruct r; cbn beta iota ] ].
+  let w0 := cur_w in
+  eapply p_eq with (w := w0); [ solve [psolve] |
+    eapply wp_call; [ eapply lem;
+                      try (match goal with K : PInv ?d0 _ _ |- PInv ?e _ _ => is_evar e; unify e d0 end);
+                      try solve [psolve]
+                    | after_call ] ].
+Ltac p_docall_d lem dd :=
+  let w0 := cur_w in
+  eapply p_eq with (w := w0); [ solve [psolve] |
+    eapply wp_call; [ eapply lem with (d := dd); try solve [psolve] | after_call ] ].
 Ltac p_stif :=
   lazymatch goal with
   | |- wp _ _ _ _ ?st => match st with context [if ?b then _ else _] => let D := fresh "D" in destruct b eqn:D end
@@ -119,10 +139,248 @@ Ltac p_walk call := repeat (first [ prune | p_stif | p_emit | wp_step call ]).
 Ltac p_done := try solve [psolve].
 
 (* ---------- methods without re-entrancy ---------- *)
-(* the frame every such method has: processor, block, plan and stopping flag untouched *)
-Definition Fp (s s' : state) : Prop :=
-  s_proc s' = s_proc s /\ s_mblock s' = s_mblock s /\ s_plan s' = s_plan s /\ s_stopping s' = s_stopping s.
-
 Lemma p_startd_errback fk d w s : PInv d w s ->
   ww (startd_errback fk) (fun r g' s' => (g' = pw_abs w s' /\ PInv d w s') /\ Fp s s' /\ s_lp s' = s_lp s) (pw_abs w s) s.
 Proof. intro K. unfold startd_errback, Fp. p_walk idtac. all: p_done. Qed.
+Ltac c1 := idtac; lazymatch goal with
+  | |- wp _ (startd_errback _) _ _ _ => p_docall p_startd_errback end.
+Lemma p_do_fetch d w s : PInv d w s -> ww do_fetch (PF d w s) (pw_abs w s) s.
+Proof. intro K. unfold do_fetch, PF, Fp. p_walk c1. all: p_done. Qed.
+Lemma p_retry_fetch z d w s : PInv d w s -> ww (retry_fetch z) (PF d w s) (pw_abs w s) s.
+Proof. intro K. unfold retry_fetch, PF, Fp. p_walk c1. all: p_done. Qed.
+Ltac c3 := idtac; first [ c1 | lazymatch goal with
+  | |- wp _ do_fetch _ _ _ => p_docall p_do_fetch
+  | |- wp _ (retry_fetch _) _ _ _ => p_docall p_retry_fetch end ].
+Lemma p_handle_offset_error fk d w s : PInv d w s -> ww (handle_offset_error fk) (PF d w s) (pw_abs w s) s.
+Proof. intro K. unfold handle_offset_error, PF, Fp. p_walk c3. all: p_done. Qed.
+Lemma p_handle_fetch_error fk d w s : PInv d w s -> ww (handle_fetch_error fk) (PF d w s) (pw_abs w s) s.
+Proof. intro K. unfold handle_fetch_error, PF, Fp. p_walk c3. all: p_done. Qed.
+Lemma p_handle_auto_commit_error fk d w s : PInv d w s -> ww (handle_auto_commit_error fk) (PF d w s) (pw_abs w s) s.
+Proof. intro K. unfold handle_auto_commit_error, PF, Fp. p_walk c3. all: p_done. Qed.
+Lemma p_handle_processor_error fk d w s : PInv d w s -> ww (handle_processor_error fk) (PF d w s) (pw_abs w s) s.
+Proof. intro K. unfold handle_processor_error, PF, Fp. p_walk c3. all: p_done. Qed.
+Lemma p_send_commit_request i a d w s : PInv d w s -> ww (send_commit_request i a) (PF d w s) (pw_abs w s) s.
+Proof. intro K. unfold send_commit_request, PF, Fp. p_walk c3. all: p_done. Qed.
+Ltac c4 := idtac; first [ c3 | lazymatch goal with
+  | |- wp _ (handle_offset_error _) _ _ _ => p_docall p_handle_offset_error
+  | |- wp _ (handle_fetch_error _) _ _ _ => p_docall p_handle_fetch_error
+  | |- wp _ (handle_auto_commit_error _) _ _ _ => p_docall p_handle_auto_commit_error
+  | |- wp _ (handle_processor_error _) _ _ _ => p_docall p_handle_processor_error
+  | |- wp _ (send_commit_request _ _) _ _ _ => p_docall p_send_commit_request end ].
+Lemma p_commit x d w s : PInv d w s -> ww (commit x) (PF d w s) (pw_abs w s) s.
+Proof. intro K. unfold commit, PF, Fp. p_walk c4. all: p_done. Qed.
+Ltac c5 := idtac; first [ c4 | lazymatch goal with
+  | |- wp _ (commit _) _ _ _ => p_docall p_commit end ].
+Lemma p_auto_commit bc d w s : PInv d w s -> ww (auto_commit bc) (PF d w s) (pw_abs w s) s.
+Proof. intro K. unfold auto_commit, PF, Fp. p_walk c5. all: p_done. Qed.
+Ltac c6 := idtac; first [ c5 | lazymatch goal with
+  | |- wp _ (auto_commit _) _ _ _ => p_docall p_auto_commit end ].
+
+(* the callbacks on the processor's Deferred: entered with the monitor already told the outcome (ORet of the call /
+   EProcFire / OCancelProc), the model still holding the Deferred *)
+Definition fired (s : state) (last : Z) (fk : option Z) : gpw :=
+  mkPW PIdle (s_plan s) (match fk with None => Some last | Some _ => s_lp s end).
+Lemma p_proc_chain last fk d s : PInvF d s ->
+  ww (proc_chain last fk)
+     (fun r g' s' => (g' = pw_abs None s' /\ PInvF d s') /\ s_proc s' = None /\ s_mblock s' = s_mblock s
+                     /\ s_plan s' = s_plan s /\ s_stopping s' = s_stopping s)
+     (fired s last fk) s.
+Proof.
+  intro K. unfold proc_chain, fired.
+  destruct fk as [k|].
+  - p_walk ltac:(idtac; lazymatch goal with
+    | |- wp _ (handle_processor_error _) _ _ _ => p_docall_d p_handle_processor_error (fst d, false)
+    | |- wp _ (auto_commit _) _ _ _ => p_docall_d p_auto_commit (fst d, false) end). all: p_done.
+  - p_walk ltac:(idtac; lazymatch goal with
+    | |- wp _ (handle_processor_error _) _ _ _ => p_docall_d p_handle_processor_error (fst d, false)
+    | |- wp _ (auto_commit _) _ _ _ => p_docall_d p_auto_commit (fst d, false) end). all: p_done.
+Qed.
+Lemma p_emit_shutd ok v lc d w s : PInv d w s -> ww (emit_shutd (OShutD ok v lc)) (PF d w s) (pw_abs w s) s.
+Proof. intro K. unfold emit_shutd, PF, Fp. p_walk c6. all: p_done. Qed.
+Ltac c7 := idtac; first [ c6 | lazymatch goal with
+  | |- wp _ (emit_shutd (OShutD _ _ _)) _ _ _ => p_docall p_emit_shutd
+  | |- wp _ (emit_shutd (match ?x with _ => _ end)) _ _ _ => destruct x end ].
+Lemma p_interrupted d w s : PInv d w s -> ww interrupted (PF d w s) (pw_abs w s) s.
+Proof. intro K. unfold interrupted, PF, Fp. p_walk c7. all: p_done. Qed.
+Ltac c8 := idtac; first [ c7 | lazymatch goal with
+  | |- wp _ interrupted _ _ _ => p_docall p_interrupted end ].
+
+(* ---------- the re-entrant methods ---------- *)
+Definition PreD (k : kont) (d : bool * bool) (w : option (Z * Z)) (g : gpw) (s : state) : Prop :=
+  match k with
+  | KStop => g = pw_abs w s /\ PInv d w s /\ (is_some w = true -> s_proc s = None)
+  | KFireProc fk =>
+    match s_proc s with
+    | Some (l, _, _) => w = None /\ g = fired s l fk /\ PInvF d s
+    | None => g = pw_abs w s /\ PInv d w s /\ (is_some w = true -> snd d = true)
+    end
+  | KProcLoop _ => g = pw_abs w s /\ PInv d w s /\ (is_some w = true -> snd d = true) /\ s_proc s = None
+  | _ => g = pw_abs w s /\ PInv d w s /\ (is_some w = true -> snd d = true)
+  end.
+Definition dmode (k : kont) (d : bool * bool) : bool * bool :=
+  match k with KStop => (true, true) | KFireProc _ => (fst d, fst d) | _ => d end.
+Definition PostD (k : kont) (d : bool * bool) (w : option (Z * Z)) (s : state) : res unit -> gpw -> state -> Prop :=
+  fun r g' s' => g' = pw_abs w s' /\
+    (PInv (dmode k d) w s' \/ (k = KStop /\ s_startd s = None /\ PInv d w s')).   (* stop() on a stopped consumer raises *)
+
+Section Rec.
+Variable rec : kont -> M unit.
+Hypothesis Hrec : forall k d w g s, PreD k d w g s -> ww (rec k) (PostD k d w s) g s.
+
+(* a nested continuation other than KStop / KFireProc / KProcLoop, in the current mode *)
+Lemma Hrec_plain k d w s : PInv d w s -> (is_some w = true -> snd d = true) ->
+  match k with KStop | KFireProc _ | KProcLoop _ => False | _ => True end ->
+  ww (rec k) (PQ d w) (pw_abs w s) s.
+Proof.
+  intros K W Hk. eapply wp_conseq; [apply (Hrec k d w) |].
+  - destruct k; try contradiction; cbn; auto.
+  - intros r g' s' [-> [H | (E & _)]]; [| subst k; contradiction]. destruct k; try contradiction; split; auto.
+Qed.
+Lemma Hrec_stop d w s : PInv d w s -> (is_some w = true -> s_proc s = None) -> is_some (s_startd s) = true ->
+  ww (rec KStop) (PQ (true, true) w) (pw_abs w s) s.
+Proof.
+  intros K W SD. eapply wp_conseq; [apply (Hrec KStop d w) |].
+  - cbn. repeat split; auto.
+  - intros r g' s' [-> [H | (_ & E & _)]]; [split; auto | rewrite E in SD; discriminate SD].
+Qed.
+Lemma Hrec_loop msgs d w s : PInv d w s -> (is_some w = true -> snd d = true) -> s_proc s = None ->
+  ww (rec (KProcLoop msgs)) (PQ d w) (pw_abs w s) s.
+Proof.
+  intros K W N. eapply wp_conseq; [apply (Hrec (KProcLoop msgs) d w) |].
+  - cbn. auto.
+  - intros r g' s' [-> [H | (E & _)]]; [split; auto | discriminate E].
+Qed.
+
+Ltac wcond := first [ assumption | solve [intro; discriminate] | solve [cbn; intros; congruence] | solve [psolve] ].
+Ltac c9 := idtac; first [ c8 | lazymatch goal with
+  | |- wp _ (rec KStop) _ _ _ =>
+    let w0 := cur_w in eapply p_eq with (w := w0); [ solve [psolve] |
+      eapply wp_call; [ eapply Hrec_stop;
+                        [ try (match goal with K : PInv ?d0 _ _ |- PInv ?e _ _ => is_evar e; unify e d0 end); solve [psolve] | wcond | solve [psolve] ]
+                      | after_call ] ]
+  | |- wp _ (rec (KProcLoop _)) _ _ _ =>
+    let w0 := cur_w in eapply p_eq with (w := w0); [ solve [psolve] |
+      eapply wp_call; [ eapply Hrec_loop;
+                        [ try (match goal with K : PInv ?d0 _ _ |- PInv ?e _ _ => is_evar e; unify e d0 end); solve [psolve] | wcond | solve [psolve] ]
+                      | after_call ] ]
+  | |- wp _ (rec (KFireProc _)) _ _ _ => fail
+  | |- wp _ (rec _) _ _ _ =>
+    let w0 := cur_w in eapply p_eq with (w := w0); [ solve [psolve] |
+      eapply wp_call; [ eapply Hrec_plain;
+                        [ try (match goal with K : PInv ?d0 _ _ |- PInv ?e _ _ => is_evar e; unify e d0 end); solve [psolve] | wcond | exact I ]
+                      | after_call ] ]
+  end ].
+
+Lemma p_handle_commit_error fk i a d w s : PInv d w s -> (is_some w = true -> snd d = true) ->
+  ww (handle_commit_error rec fk i a) (PQ d w) (pw_abs w s) s.
+Proof. intros K W. unfold handle_commit_error. p_walk c9. all: p_done. Qed.
+Lemma p_fire_all ds r d w s : PInv d w s -> (is_some w = true -> snd d = true) ->
+  ww (fire_all rec ds r) (PQ d w) (pw_abs w s) s.
+Proof.
+  revert s. induction ds as [|x ds IH]; intros s K W; cbn [fire_all].
+  - p_walk c9. all: p_done.
+  - p_walk c9. all: try (apply IH; [solve [psolve] | wcond]). all: p_done.
+Qed.
+Lemma p_finish_block d w s : PInv d w s -> (is_some w = true -> snd d = true) -> s_proc s = None ->
+  ww (finish_block rec) (PQ d w) (pw_abs w s) s.
+Proof. intros K W N. unfold finish_block. p_walk c9. all: p_done. Qed.
+Ltac c10 := idtac; first [ c9 | lazymatch goal with
+  | |- wp _ (handle_commit_error _ _ _ _) _ _ _ =>
+    let w0 := cur_w in eapply p_eq with (w := w0); [ solve [psolve] |
+      eapply wp_call; [ eapply p_handle_commit_error;
+                        [ try (match goal with K : PInv ?d0 _ _ |- PInv ?e _ _ => is_evar e; unify e d0 end); solve [psolve] | wcond ]
+                      | after_call ] ]
+  | |- wp _ (fire_all _ _ _) _ _ _ =>
+    let w0 := cur_w in eapply p_eq with (w := w0); [ solve [psolve] |
+      eapply wp_call; [ eapply p_fire_all;
+                        [ try (match goal with K : PInv ?d0 _ _ |- PInv ?e _ _ => is_evar e; unify e d0 end); solve [psolve] | wcond ]
+                      | after_call ] ]
+  | |- wp _ (finish_block _) _ _ _ =>
+    let w0 := cur_w in eapply p_eq with (w := w0); [ solve [psolve] |
+      eapply wp_call; [ eapply p_finish_block;
+                        [ try (match goal with K : PInv ?d0 _ _ |- PInv ?e _ _ => is_evar e; unify e d0 end); solve [psolve] | wcond | solve [psolve] ]
+                      | after_call ] ]
+  end ].
+
+(* stop()'s cancellation of the processor's Deferred: afterwards the state is drained *)
+Lemma p_stop_proc (d : bool * bool) w s : PInvF (true, snd d) s -> (is_some w = true -> s_proc s = None) ->
+  ww (stop_proc rec) (PQ (true, true) w) (pw_abs w s) s.
+Proof.
+  intros K W. unfold stop_proc. apply wp_bind, wp_get. cbn beta iota.
+  destruct (s_proc s) as [[[l rest] c]|] eqn:D.
+  - destruct w as [[wl wr]|]; [specialize (W eq_refl); discriminate W|].
+    apply wp_bind. apply wp_emit. eexists. split.
+    { unfold pw_abs. cbn [pw_out w_st]. rewrite D. reflexivity. }
+    cbn beta iota. apply wp_swallow.
+    eapply wp_conseq; [apply (Hrec (KFireProc (Some FK_CANCELLED)) (true, snd d) None) |].
+    + cbn [PreD]. rewrite D. repeat split; auto.
+    + intros r g' s' [-> [H | (E & _)]]; [split; auto | discriminate E].
+  - apply wp_ret. split; [reflexivity|]. unfold PInv, PInvF, inv13b in *. cbn [fst snd] in *. rewrite D. cbn.
+    rewrite !andb_true_r. exact K.
+Qed.
+Lemma p_stop_rcall d w s : PInv d w s -> ww stop_rcall (PF d w s) (pw_abs w s) s.
+Proof. intro K. unfold stop_rcall, PF, Fp. p_walk c10. all: p_done. Qed.
+Lemma p_stop_creq d w s : PInv d w s -> (is_some w = true -> snd d = true) -> ww (stop_creq rec) (PQ d w) (pw_abs w s) s.
+Proof. intros K W. unfold stop_creq. p_walk c10. all: p_done. Qed.
+Lemma p_stop_ccall d w s : PInv d w s -> ww stop_ccall (PF d w s) (pw_abs w s) s.
+Proof. intro K. unfold stop_ccall, PF, Fp. p_walk c10. all: p_done. Qed.
+Lemma p_stop_looper d w s : PInv d w s -> ww stop_looper (PF d w s) (pw_abs w s) s.
+Proof. intro K. unfold stop_looper, PF, Fp. p_walk c10. all: p_done. Qed.
+Lemma p_stop_susp d w s : PInv d w s -> ww stop_susp (PF d w s) (pw_abs w s) s.
+Proof. intro K. unfold stop_susp, PF, Fp. p_walk c10. all: p_done. Qed.
+Ltac c11 := idtac; first [ c10 | lazymatch goal with
+  | |- wp _ stop_rcall _ _ _ => p_docall p_stop_rcall
+  | |- wp _ stop_ccall _ _ _ => p_docall p_stop_ccall
+  | |- wp _ stop_looper _ _ _ => p_docall p_stop_looper
+  | |- wp _ stop_susp _ _ _ => p_docall p_stop_susp
+  | |- wp _ (stop_creq _) _ _ _ =>
+    let w0 := cur_w in eapply p_eq with (w := w0); [ solve [psolve] |
+      eapply wp_call; [ eapply p_stop_creq;
+                        [ try (match goal with K : PInv ?d0 _ _ |- PInv ?e _ _ => is_evar e; unify e d0 end); solve [psolve] | wcond ]
+                      | after_call ] ]
+  end ].
+Lemma p_stop_req d w s : PInv d w s ->
+  ww stop_req (fun r g' s' => PF d w s r g' s' /\ r = Ok tt) (pw_abs w s) s.
+Proof. intro K. unfold stop_req, PF, Fp. p_walk c10. all: p_done. Qed.
+
+Ltac fin_stop := try solve [ split; [ solve [psolve] | left; solve [psolve] ] ].
+Lemma p_body_KStop d w s : PInv d w s -> (is_some w = true -> s_proc s = None) ->
+  ww (body rec KStop) (PostD KStop d w s) (pw_abs w s) s.
+Proof.
+  intros K W. cbn [body]. unfold PostD, dmode.
+  apply wp_bind, wp_get. cbn beta iota. destruct (s_startd s) as [b|] eqn:SD.
+  2:{ apply wp_raise. split; auto. }
+  apply wp_bind, wp_upd. cbn beta iota.
+  (* stopping: the state is dead from here on *)
+  assert (K1 : PInv (true, false) w (set_stopping true s)) by psolve. clear K.
+  apply wp_bind. p_docall_d p_stop_req (true, false). all: try discriminate. all: fin_stop.
+  (* the parked reply is dropped: invariant 13 is suspended until the processor's Deferred is cancelled *)
+  unfold stop_mblock. apply wp_bind, wp_bind, wp_get. cbn beta iota.
+  assert (W' : is_some w = true -> s_proc s' = None)
+    by (intro; match goal with H : s_proc s' = _ |- _ => rewrite H end; psimpl; auto).
+  match goal with |- wp _ (match ?x with _ => _ end) _ _ _ => destruct x eqn:MB end; wp_prim; cbn beta iota.
+  all: apply wp_bind; eapply p_eq with (w := w); [reflexivity|];
+    (eapply wp_call; [ apply (p_stop_proc (true, false) w); [ psolve | psimpl; exact W' ] |]);
+    after_call; fin_stop;
+    unfold stop_startd; p_walk c11; fin_stop.
+Qed.
+
+Ltac fin_k := try solve [ split; [ solve [psolve] | left; solve [psolve] ] ].
+Lemma p_body_KStopCds d w s : PInv d w s -> (is_some w = true -> snd d = true) ->
+  ww (body rec KStopCds) (PostD KStopCds d w s) (pw_abs w s) s.
+Proof. intros K W. cbn [body]. unfold PostD, dmode. p_walk c11. all: fin_k. Qed.
+Lemma p_body_KFetchResp offs ts d w s : PInv d w s -> (is_some w = true -> snd d = true) ->
+  ww (body rec (KFetchResp offs ts)) (PostD (KFetchResp offs ts) d w s) (pw_abs w s) s.
+Proof. intros K W. cbn [body]. unfold PostD, dmode. p_walk c11. all: fin_k. Qed.
+Lemma p_body_KCommitAndStop d w s : PInv d w s -> (is_some w = true -> snd d = true) ->
+  ww (body rec KCommitAndStop) (PostD KCommitAndStop d w s) (pw_abs w s) s.
+Proof. intros K W. cbn [body]. unfold PostD, dmode. p_walk c11. all: fin_k. Qed.
+Lemma p_body_KShutFinish fk d w s : PInv d w s -> (is_some w = true -> snd d = true) ->
+  ww (body rec (KShutFinish fk)) (PostD (KShutFinish fk) d w s) (pw_abs w s) s.
+Proof. intros K W. cbn [body]. unfold PostD, dmode. p_walk c11. all: fin_k. Qed.
+Lemma p_body_KFireCd x r d w s : PInv d w s -> (is_some w = true -> snd d = true) ->
+  ww (body rec (KFireCd x r)) (PostD (KFireCd x r) d w s) (pw_abs w s) s.
+Proof. intros K W. cbn [body]. unfold PostD, dmode. p_walk c11. all: fin_k. Qed.
+Lemma p_body_KDeliver r d w s : PInv d w s -> (is_some w = true -> snd d = true) ->
+  ww (body rec (KDeliver r)) (PostD (KDeliver r) d w s) (pw_abs w s) s.
+Proof. intros K W. cbn [body]. unfold PostD, dmode. p_walk c11. all: fin_k. Qed.
